@@ -18,6 +18,13 @@ CHECKS = {
         note="Trusted: CPython ast; the seed types of cell/positions/matrices (documented conventions of PhonopyAtoms and the Supercell/Primitive docstrings). Unknown operands type to unknown and are never reported.",
         ref="DESIGN.md §3 C04",
     ),
+    "C09": dict(
+        technique="static analysis on Python ast: structural proof obligations on the weight construction (open-term comparison), typestate over guard-correlated paths for the coupled symmetry flags, sibling keyword agreement for stored/iterated meshes, linear-in-weight rule for every mesh consumer, guard-before-construction rule for consumers that need an unreduced mesh",
+        level="other",
+        text="Decides the clauses that make 'reduced sampling == full sampling' true by construction: weights are one count per grid point selected by the values of the same table; time reversal is never used where mesh symmetry is off (all constructor paths, all callers); both mesh flavours receive the same rotations and the symmetry library their documented orientation; every consumer multiplies by the weight of the same q exactly once and divides by the weight sum; eigenvector-dependent consumers refuse reduced meshes. Does not decide that spglib's mapping is a correct orbit decomposition.",
+        note="Trusted: CPython ast, spglib's documented argument conventions.",
+        ref="DESIGN.md §3 C09",
+    ),
     "C10": dict(
         technique="static analysis: source-to-sympy translation of the Python and C closed forms (algebraic identity checking), interval abstract interpretation with IEEE-754 specials, AST pattern rules for filters/guards/unit chain",
         level="other",
